@@ -60,6 +60,14 @@ struct Shm {
   volatile uint64_t short_deadline_us;  // slow-parent scenarios: the deadline/timeout the long delay must outlast
   volatile uint64_t exited_seen_ns;     // first time the sleeping parent-side shim saw the child as a zombie (or already reaped)
   volatile int32_t late_nokill;   // loop iterations begun > 10 s after the first signal, child not SIGKILLed yet
+  // deadline-relative delays (MODE_UNTIL_DEADLINE) and what the parent asks of poll() while a timeout is pending
+  volatile uint64_t t_pipe_ns;      // first pipe() of the call: run_process read its start time between t0_ns and this
+  volatile uint64_t t_term_hi_ns;   // first wrapped call after the first signal: the grace period began before this
+  volatile int32_t dl_seen[4];      // qualifying calls seen per plan item
+  volatile int32_t dl_fired[4];     // the item's delay was placed (the call began before the deadline and resumed after it)
+  volatile int64_t dl_resumed_after_us[4];  // how far past the (upper bound of the) deadline the delayed call resumed
+  volatile int32_t poll_no_timeout_pending;  // poll() calls with a negative / > 1 h timeout while a finite run_process timeout is pending
+  volatile int32_t poll_min_timeout, poll_max_timeout, poll_any;
   volatile uint32_t rec_len;
   char rec[48 * 1024];
 };
@@ -67,13 +75,21 @@ static Shm* g_shm;
 static volatile bool g_active = false;  // true only while the SP is inside the phosg call
 
 // MODE_PAST_DEADLINE: one long delay that ends 300 ms after the call's deadline/timeout has passed (slow parent)
-enum { MODE_SLEEP = 0, MODE_SETTLE = 1, MODE_EINTR = 2, MODE_PAST_DEADLINE = 3 };
+// MODE_UNTIL_DEADLINE: a delay positioned relative to the run_process timeout: the k-th call of its kind that is issued
+// before the deadline, inside the last `win_us` before it (0 = any time before it) and after the parent has read
+// `after_rd` bytes of child output sleeps until the deadline + `us` (eps).  phase 1 = the same relative to the end of the
+// grace period that follows the first signal (SIGTERM-surviving child).
+enum { MODE_SLEEP = 0, MODE_SETTLE = 1, MODE_EINTR = 2, MODE_PAST_DEADLINE = 3, MODE_UNTIL_DEADLINE = 4 };
+static const uint64_t GRACE_US = 5000000ULL;  // run_process' SIGTERM -> SIGKILL grace (used to position delays, never as a verdict)
 enum { SIG_NONE = 0, SIG_ALARM_STORM = 1, SIG_SIBLING_CHLD = 2 };
 struct Delay {
   int kind;
   uint32_t k;  // 1-based call number of that kind
   int mode;
   uint32_t us;
+  uint32_t win_us = 0;    // MODE_UNTIL_DEADLINE: only calls issued within this window before the deadline qualify
+  uint64_t after_rd = 0;  // MODE_UNTIL_DEADLINE: only calls issued after the parent has read this many bytes qualify
+  int phase = 0;          // MODE_UNTIL_DEADLINE: 0 = the timeout itself, 1 = the grace period after the first signal
 };
 struct Plan {
   Delay items[4];
@@ -85,6 +101,12 @@ struct Plan {
     for (int i = 0; i < n; i++) {
       if (!r.empty()) r += ",";
       r += fmt("%s#%u:", KIND_NAMES[items[i].kind], items[i].k);
+      if (items[i].mode == MODE_UNTIL_DEADLINE) {
+        r += fmt("until-%s+%uus", items[i].phase ? "grace-end" : "deadline", items[i].us);
+        if (items[i].win_us) r += fmt("(first in the last %u ms before it)", items[i].win_us / 1000);
+        if (items[i].after_rd) r += fmt("(after %" PRIu64 " bytes read)", items[i].after_rd);
+        continue;
+      }
       r += items[i].mode == MODE_SETTLE ? string("settle") : items[i].mode == MODE_EINTR ? string("EINTR")
            : items[i].mode == MODE_PAST_DEADLINE ? string("until-deadline+300ms") : fmt("%uus", items[i].us);
     }
@@ -95,6 +117,9 @@ struct Plan {
   string cls() const {
     if (sig) return sig == SIG_ALARM_STORM ? "plan:signals:sigalrm-storm" : "plan:signals:sibling-sigchld";
     if (n >= 1 && items[0].mode == MODE_PAST_DEADLINE) return fmt("plan:%s:past-deadline", KIND_NAMES[items[0].kind]);
+    if (n >= 1 && items[0].mode == MODE_UNTIL_DEADLINE)
+      return fmt("plan:%s:straddles-%s:%s:eps=%s", KIND_NAMES[items[0].kind], items[0].phase ? "grace-end" : "deadline",
+                 items[0].after_rd ? "after-output-read" : "time-window", items[0].us >= 10000 ? "20ms" : "1ms");
     if (n >= 1 && items[0].mode == MODE_EINTR) return fmt("plan:%s:eintr%s", KIND_NAMES[items[0].kind], n > 1 ? "-multi" : "");
     if (n == 0 && !all_us) return "plan:none";
     if (n == 0) return "plan:all-calls";
@@ -241,9 +266,54 @@ static void sleep_past_deadline() {
   }
 }
 
-static void apply_delay(int kind, uint64_t k) {
+// Deadline-relative delay.  The deadline run_process works with lies between lo = t0 + T (t0 read just before the call)
+// and hi = (first pipe() of the call) + T, because it reads its start time between those two moments; a call qualifies
+// only if it begins before lo and it is resumed only after hi + eps, so the delay really straddles the deadline.
+static void apply_deadline_delay(int kind) {
   for (int i = 0; i < g_plan.n; i++) {
     const Delay& d = g_plan.items[i];
+    if (d.mode != MODE_UNTIL_DEADLINE || d.kind != kind || g_shm->dl_fired[i]) continue;
+    const uint64_t T = g_shm->timeout_us;
+    if (!T) continue;
+    uint64_t lo, hi;
+    if (d.phase == 0) {
+      if (g_shm->nsigs || !g_shm->t_pipe_ns) continue;
+      lo = g_shm->t0_ns + T * 1000ULL;
+      hi = g_shm->t_pipe_ns + T * 1000ULL;
+    } else {
+      if (!g_shm->nsigs || g_shm->kill_sent || !g_shm->t_term_hi_ns) continue;
+      lo = g_shm->t_term_ns + GRACE_US * 1000ULL;
+      hi = g_shm->t_term_hi_ns + GRACE_US * 1000ULL;
+    }
+    const uint64_t t = mono_ns();
+    if (t >= lo) continue;
+    if (d.win_us && t + (uint64_t)d.win_us * 1000ULL < lo) continue;
+    if (g_shm->rd_bytes < d.after_rd) continue;
+    int seen = g_shm->dl_seen[i] + 1;
+    g_shm->dl_seen[i] = seen;
+    if ((uint32_t)seen != d.k) continue;
+    const uint64_t target = hi + (uint64_t)d.us * 1000ULL;
+    for (;;) {
+      uint64_t n = mono_ns();
+      if (n >= target) break;
+      sleep_us((target - n) / 1000 + 1);
+    }
+    g_shm->dl_resumed_after_us[i] = (int64_t)((mono_ns() - hi) / 1000);
+    g_shm->dl_fired[i] = 1;
+  }
+}
+
+// every shim passes here first
+static inline void shim_enter() {
+  if (g_shm->nsigs && !g_shm->t_term_hi_ns) g_shm->t_term_hi_ns = mono_ns();
+}
+
+static void apply_delay(int kind, uint64_t k) {
+  shim_enter();
+  apply_deadline_delay(kind);
+  for (int i = 0; i < g_plan.n; i++) {
+    const Delay& d = g_plan.items[i];
+    if (d.mode == MODE_UNTIL_DEADLINE) continue;
     if (d.kind == kind && d.k == k) {
       if (d.mode == MODE_PAST_DEADLINE) sleep_past_deadline();
       else if (d.mode == MODE_SETTLE) wait_child_settled();
@@ -311,6 +381,12 @@ extern "C" int __wrap_poll(struct pollfd* fds, nfds_t n, int timeout) {
   if (!g_active) return __real_poll(fds, n, timeout);
   uint64_t k = ++g_shm->calls[K_POLL];
   g_shm->last_poll_timeout = timeout;
+  if (!g_shm->poll_any || timeout < g_shm->poll_min_timeout) g_shm->poll_min_timeout = timeout;
+  if (!g_shm->poll_any || timeout > g_shm->poll_max_timeout) g_shm->poll_max_timeout = timeout;
+  g_shm->poll_any = 1;
+  // counted, not judged: a poll() that cannot return on its own while run_process still has a timeout to enforce
+  if (g_shm->timeout_us && !g_shm->kill_sent && !g_shm->reaped && (timeout < 0 || timeout > 3600000))
+    g_shm->poll_no_timeout_pending = g_shm->poll_no_timeout_pending + 1;
   apply_delay(K_POLL, k);
   if (inject_eintr(K_POLL, k)) {
     // as the kernel does with a signal pending on entry: descriptors that are ready now are still reported
@@ -364,6 +440,7 @@ extern "C" pid_t __wrap_fork(void) {
 }
 extern "C" int __wrap_pipe(int* fds) {
   int r = __real_pipe(fds);
+  if (g_active && !g_shm->t_pipe_ns) g_shm->t_pipe_ns = mono_ns();
   if (g_active && r == 0 && g_shm->npipes < 4) {
     int i = g_shm->npipes;
     g_shm->pipe_fds[2 * i] = fds[0];
@@ -455,6 +532,7 @@ struct Scenario {
   int life_kind = 0;
   Plan plan;
   uint64_t key = 0;
+  vector<string> tags;  // extra coverage classes
 
   string ops_str() const {
     string r;
@@ -542,6 +620,11 @@ static Expect model(const Scenario& sc, const string& payload) {
         (a[0] == 1 ? s1 : s2).gen(a[0] == 1 ? e.out : e.err, 1 << 16);
         e.blocks_forever = true;
         return e;
+      case 'H':  // survives SIGTERM, writes a[1] bytes some time after the first one
+        e.ignores_term = true;
+        (a[0] == 1 ? s1 : s2).gen(a[0] == 1 ? e.out : e.err, (size_t)a[1]);
+        break;
+      case 'C':  // closes a descriptor: the scripts never use it afterwards
       case 'G':  // the grandchild writes nothing
       default:
         break;
@@ -1043,6 +1126,268 @@ static vector<Scenario> build_scenarios(const vf::Ctx& c) {
     sc.vol = 1048576;
     sc.ops = {"E:4096"};
     finish(sc);
+  }
+  // New families are appended here so that the indices (and with them the seeded plan choice) of everything above stay put.
+
+  // ---- delays positioned relative to the run_process deadline: the first (or second) waitpid / poll / read / write
+  //      that the parent issues shortly before the deadline - or right after it has consumed the child's last output -
+  //      is held until the deadline + eps, so the deadline passes *between two particular parent system calls*.
+  //      Children: one late burst and then silence (stdout / stderr / after consuming stdin / in two pieces), silent
+  //      throughout, chatty, slow reader of a big payload (keeps POLLOUT coming), closes stdout after the burst; and
+  //      the same relative to the end of the SIGTERM grace period for children that survive SIGTERM.
+  {
+    auto DL = [&](int kind, uint32_t k, uint32_t eps_us, uint32_t win_us, uint64_t after_rd, int phase) {
+      Plan p;
+      p.n = 1;
+      Delay d{kind, k, MODE_UNTIL_DEADLINE, eps_us};
+      d.win_us = win_us;
+      d.after_rd = after_rd;
+      d.phase = phase;
+      p.items[0] = d;
+      return p;
+    };
+    struct DC {
+      const char* name;
+      vector<string> ops;
+      size_t payload;      // 0 = stdin nullptr
+      uint64_t T;
+      int kind;
+      uint32_t k, win_us;
+      uint64_t after_rd;
+      int phase;
+      int in_quick;        // 0 thorough only, 1 quick with one eps (alternating), 2 quick with both eps
+    };
+    const string HANG = "S:600000";
+    const vector<DC> dcs = {
+        // one burst, then silence: the delayed call is the first of its kind after the burst has been read
+        {"deadline-late-burst-then-silent", {"S:200", W(1, 64), HANG}, 0, 1500000, K_WAITPID, 1, 0, 64, 0, 2},
+        {"deadline-late-burst-then-silent", {"S:200", W(1, 64), HANG}, 0, 1500000, K_POLL, 1, 0, 64, 0, 1},
+        {"deadline-late-burst-then-silent", {"S:200", W(1, 64), HANG}, 0, 1500000, K_WAITPID, 2, 0, 64, 0, 0},
+        {"deadline-late-burst-stderr-then-silent", {"S:200", W(2, 64), HANG}, 0, 1500000, K_WAITPID, 1, 0, 64, 0, 1},
+        {"deadline-late-burst-stderr-then-silent", {"S:200", W(2, 64), HANG}, 0, 1500000, K_POLL, 1, 0, 64, 0, 0},
+        {"deadline-two-bursts-then-silent", {"S:200", W(1, 64, 32, 80000), HANG}, 0, 1500000, K_READ, 1, 0, 32, 0, 2},
+        {"deadline-two-bursts-then-silent", {"S:200", W(1, 64, 32, 80000), HANG}, 0, 1500000, K_WAITPID, 1, 0, 32, 0, 1},
+        {"deadline-burst-after-stdin-then-silent", {"R:*:65536:0", "S:200", W(1, 64), HANG}, 70000, 1500000, K_WAITPID, 1, 0, 64, 0, 2},
+        {"deadline-burst-after-stdin-then-silent", {"R:*:65536:0", "S:200", W(1, 64), HANG}, 1048576, 1500000, K_POLL, 1, 0, 64, 0, 0},
+        {"deadline-burst-closes-stdout-then-silent", {"S:200", W(1, 64), "C:1", HANG}, 0, 1500000, K_WAITPID, 1, 0, 64, 0, 1},
+        {"deadline-burst-closes-both-then-silent", {"S:200", W(1, 64), "C:2", "C:1", HANG}, 0, 1500000, K_POLL, 1, 0, 64, 0, 0},
+        {"deadline-burst-then-silent-sigterm-ignored", {"T", "S:200", W(1, 64), HANG}, 0, 1500000, K_WAITPID, 1, 0, 64, 0, 0},
+        // silent throughout: the parent wakes once a second; the call that follows such a wake-up inside the window
+        {"deadline-silent", {HANG}, 0, 1500000, K_WAITPID, 1, 700000, 0, 0, 2},
+        {"deadline-silent", {HANG}, 0, 1500000, K_POLL, 1, 700000, 0, 0, 1},
+        {"deadline-silent", {"R:*:65536:0", HANG}, 65537, 2500000, K_WAITPID, 1, 700000, 0, 0, 0},
+        // chatty: there is always a call of every kind inside the window
+        {"deadline-chatty", {"Y:1:25"}, 0, 600000, K_WAITPID, 1, 100000, 0, 0, 1},
+        {"deadline-chatty", {"Y:1:25"}, 0, 600000, K_POLL, 1, 100000, 0, 0, 1},
+        {"deadline-chatty", {"Y:1:25"}, 0, 600000, K_READ, 1, 100000, 0, 0, 1},
+        {"deadline-chatty", {"Y:2:25"}, 0, 600000, K_READ, 2, 100000, 0, 0, 0},
+        {"deadline-chatty", {"Y:1:25"}, 0, 600000, K_WAITPID, 2, 100000, 0, 0, 0},
+        // slow reader of a payload far beyond the pipe capacity: POLLOUT keeps coming, the parent keeps writing
+        {"deadline-slow-reader-big-payload", {"R:*:4096:4000", HANG}, 1048576, 600000, K_WRITE, 1, 150000, 0, 0, 2},
+        {"deadline-slow-reader-big-payload", {"R:*:4096:4000", HANG}, 1048576, 600000, K_WRITE, 2, 150000, 0, 0, 1},
+        {"deadline-slow-reader-big-payload", {"R:*:4096:4000", HANG}, 1048576, 600000, K_WAITPID, 1, 150000, 0, 0, 1},
+        {"deadline-slow-reader-big-payload", {"R:*:4096:4000", HANG}, 1048576, 600000, K_POLL, 1, 150000, 0, 0, 0},
+        // SIGTERM-surviving children: the same around the end of the grace period (a burst 4.4 s after SIGTERM / silence)
+        {"grace-late-burst-then-silent", {W(1, 10), "H:1:64:4400", HANG}, 0, 500000, K_WAITPID, 1, 0, 74, 1, 1},
+        {"grace-late-burst-then-silent", {W(1, 10), "H:1:64:4400", HANG}, 0, 500000, K_POLL, 1, 0, 74, 1, 0},
+        {"grace-silent", {"T", HANG}, 0, 500000, K_WAITPID, 1, 1100000, 0, 1, 1},
+        {"grace-silent", {"T", HANG}, 0, 500000, K_POLL, 1, 1100000, 0, 1, 0},
+    };
+    int n = 0, j = 0;
+    for (const DC& dc : dcs) {
+      j++;
+      for (int e = 0; e < 2; e++) {
+        n++;
+        if (quick && (dc.in_quick == 0 || (dc.in_quick == 1 && e != (dc.phase ? 1 : j % 2)))) continue;
+        for (int var = 0; var < (quick ? 1 : 2); var++) {
+          Scenario sc;
+          sc.api = RP;
+          sc.beh = dc.name;
+          sc.ops = dc.ops;
+          sc.payload = dc.payload;
+          sc.stdin_null = dc.payload == 0 && (n + var) % 2 == 0;
+          sc.vol = 64;
+          sc.timeout_us = dc.T + (var ? 700000 : 0);
+          sc.check = (n + var) % 3 == 0;
+          sc.plan = DL(dc.kind, dc.k, e ? 20000 : 1000, dc.win_us, dc.after_rd, dc.phase);
+          finish(sc);
+        }
+      }
+    }
+  }
+  // ---- timeouts against children that have closed both outputs (or everything) and then hang or read slowly
+  {
+    struct NB { const char* name; vector<string> ops; size_t pay; };
+    const NB nbs[] = {
+        {"timeout-closed-both-outputs-hangs", {"C:1", "C:2", "S:600000"}, 0},
+        {"timeout-closed-both-outputs-hangs", {W(1, 100), "C:2", "C:1", "S:600000"}, 200000},
+        {"timeout-closed-all-hangs", {"C:0", "C:2", "C:1", "S:600000"}, 200000},
+        {"timeout-closed-both-outputs-reads-slowly", {"C:2", "C:1", "R:*:4096:20000", "S:600000"}, 1048576},
+    };
+    int i = 0, j = 0;
+    for (const NB& nb : nbs) {
+      j++;
+      for (int to = 0; to < 2; to++) {
+        i++;
+        if (quick && to != j % 2) continue;
+        Scenario sc;
+        sc.api = RP;
+        sc.beh = nb.name;
+        sc.ops = nb.ops;
+        sc.payload = nb.pay;
+        sc.stdin_null = nb.pay == 0 && to == 0;
+        sc.vol = 100;
+        sc.timeout_us = to ? 1000000 : 300000;
+        sc.check = i % 3 == 0;
+        sc.plan = (i % 2) ? Plan() : pick_plan(9700 + out.size());
+        finish(sc);
+      }
+    }
+  }
+  // ---- children that close descriptors in unusual orders while they keep running: every ordered subset of
+  //      {stdin, stdout, stderr} x every placement of those closes {before, between, after} the reading and the writing
+  //      phase (either phase order), payload and volume on both sides of the pipe capacity, four ways of ending
+  //      (exit code, linger 150 ms then exit, signal, linger > the parent's 1 s poll period then exit).
+  {
+    struct Pat { int n; int fd[3]; int pos[3]; };
+    vector<Pat> pats;
+    static const int perms[16][4] = {{0, 0, 0, 0}, {1, 0, 0, 0}, {1, 1, 0, 0}, {1, 2, 0, 0}, {2, 0, 1, 0}, {2, 1, 0, 0}, {2, 0, 2, 0}, {2, 2, 0, 0},
+                                     {2, 1, 2, 0}, {2, 2, 1, 0}, {3, 0, 1, 2}, {3, 0, 2, 1}, {3, 1, 0, 2}, {3, 1, 2, 0}, {3, 2, 0, 1}, {3, 2, 1, 0}};
+    for (auto& pm : perms) {
+      int m = pm[0];
+      for (int p0 = 0; p0 < 3; p0++)
+        for (int p1 = p0; p1 < 3; p1++)
+          for (int p2 = p1; p2 < 3; p2++) {
+            if (m < 3 && p2 != p1) continue;
+            if (m < 2 && p1 != p0) continue;
+            if (m < 1 && p0 != 0) continue;
+            pats.push_back(Pat{m, {pm[1], pm[2], pm[3]}, {p0, p1, p2}});
+          }
+    }
+    static const size_t PS[5] = {0, 1, 65536, 65537, 1048576};
+    static const size_t V2S[4] = {0, 1, 5000, 65537};
+    static const char* SETN[8] = {"none", "stdin", "stdout", "stdin+stdout", "stderr", "stdin+stderr", "both-outputs", "all"};
+    static const char* FDN[3] = {"in", "out", "err"};
+    static const char* POSN[3] = {"before", "between", "after"};
+    // order: 0 = read phase then write phase, 1 = write phase then read phase
+    auto build = [&](Scenario& sc, Api api, const Pat& pt, int order, size_t P, size_t V, size_t V2, int endk, unsigned v) {
+      sc.api = api;
+      sc.payload = P;
+      sc.vol = V;
+      bool closed[3] = {false, false, false};
+      int mask = 0;
+      string ord, when;
+      for (int i = 0; i < pt.n; i++) {
+        mask |= 1 << pt.fd[i];
+        ord += string(i ? ">" : "") + FDN[pt.fd[i]];
+        when += string(i ? "," : "") + POSN[pt.pos[i]];
+      }
+      sc.beh = string("closes-") + SETN[mask];
+      sc.tags = {fmt("closes:order:%s", pt.n ? ord.c_str() : "none"), fmt("closes:when:%s", pt.n ? when.c_str() : "never"),
+                 fmt("closes:phases:%s", order ? "write-then-read" : "read-then-write"), fmt("closes:end:%d", endk)};
+      auto& o = sc.ops;
+      auto closes = [&](int pos) {
+        for (int i = 0; i < pt.n; i++)
+          if (pt.pos[i] == pos) {
+            o.push_back(fmt("C:%d", pt.fd[i]));
+            closed[pt.fd[i]] = true;
+          }
+      };
+      auto rd = [&]() {
+        if (!closed[0]) o.push_back(v % 3 == 0 ? "R:*:4096:0" : "R:*:65536:0");
+      };
+      auto wr = [&]() {
+        if (!closed[1] && V) o.push_back(W(1, V, v % 2 ? 4096 : 65536));
+        if (closed[1]) sc.vol = 0;  // nothing reaches stdout
+        if (!closed[2] && V2) o.push_back(W(2, V2, 8192));
+      };
+      closes(0);
+      if (order) wr(); else rd();
+      closes(1);
+      if (order) rd(); else wr();
+      closes(2);
+      static const int codes[] = {0, 3, 0, 255, 1, 0};
+      static const int sigs[] = {SIGKILL, SIGTERM, SIGUSR1, SIGINT};
+      switch (endk) {
+        case 0: o.push_back(fmt("X:%d", codes[v % 6])); break;
+        case 1: o.push_back("S:150"); o.push_back(fmt("X:%d", codes[v % 6])); break;
+        case 2: o.push_back(fmt("K:%d", sigs[v % 4])); break;
+        default: o.push_back("S:1100"); o.push_back(fmt("X:%d", codes[v % 6])); break;
+      }
+      // both outputs closed before a read phase that is still to come: the case in which "nothing left to read" is
+      // not "nothing left to do"
+      int before_read = 0;  // descriptors closed before the read phase (positions <= limit)
+      for (int i = 0; i < pt.n; i++)
+        if (pt.pos[i] <= (order ? 1 : 0)) before_read |= 1 << pt.fd[i];
+      if (before_read == 6) sc.tags.push_back(fmt("closes:%s:both-outputs-closed-before-reading:P=%s", API_NAMES[api], bucket(P)));
+    };
+    uint64_t idx = 0;
+    const int orders = quick ? 1 : 2, npay = quick ? 1 : 5;
+    for (const Pat& pt : pats) {
+      for (int oi = 0; oi < orders; oi++)
+        for (int pi = 0; pi < npay; pi++) {
+          idx++;
+          uint64_t h = mix(seed + 5, idx);
+          int order = quick ? (int)(idx % 2) : oi;
+          size_t P = quick ? PS[(idx + idx / 5) % 5] : PS[pi];
+          size_t V = PS[(idx * 2 + idx / 5 + 1) % 5];
+          int endk = idx % 8 == 7 ? 3 : (int)(idx % 3);
+          {
+            Scenario sc;
+            build(sc, RP, pt, order, P, V, V2S[(idx + idx / 4) % 4], endk, (unsigned)(h >> 8));
+            sc.stdin_null = P == 0 && (idx % 2 == 0);
+            sc.check = idx % 3 == 0;
+            sc.timeout_us = idx % 5 == 0 ? 600000000ULL : 0;
+            sc.plan = (!quick && idx % 2) ? Plan() : pick_plan(9800 + out.size());
+            finish(sc);
+          }
+          if (!quick || idx % 3 == seed % 3) {
+            Scenario sc;
+            build(sc, CM, pt, order, P, V, V2S[idx % 3], endk == 3 ? 1 : endk, (unsigned)(h >> 12));
+            sc.timeout_us = (idx / 3) % 2 ? 60000000ULL : 0;
+            sc.ptr_overload = idx % 2;
+            sc.plan = (!quick && idx % 4 == 1) ? Plan() : pick_plan(9900 + out.size());
+            finish(sc);
+          }
+        }
+    }
+    // targeted: both outputs closed (either order, optionally stdin afterwards) before a payload beyond the pipe capacity
+    // is consumed; stdout closed while stderr keeps flowing; through communicate: stdout closed before the payload is read
+    {
+      const Pat both[] = {{2, {1, 2, 0}, {0, 0, 0}}, {2, {2, 1, 0}, {0, 0, 0}}, {3, {2, 1, 0}, {0, 0, 1}}, {3, {1, 2, 0}, {0, 0, 2}}};
+      int t = 0;
+      for (const Pat& pt : both)
+        for (size_t P : {(size_t)65537, (size_t)1048576, (size_t)200000})
+          for (int endk = 0; endk < 3; endk++) {
+            t++;
+            if (quick && (pt.n == 3 || P == 200000) && (t % 3)) continue;
+            Scenario sc;
+            build(sc, RP, pt, 0, P, 0, 0, endk, (unsigned)t);
+            sc.check = t % 4 == 0;
+            sc.plan = t % 2 ? Plan() : pick_plan(9950 + out.size());
+            finish(sc);
+          }
+      const Pat outonly[] = {{1, {1, 0, 0}, {0, 0, 0}}, {1, {1, 0, 0}, {1, 0, 0}}};
+      for (const Pat& pt : outonly)
+        for (int order = 0; order < 2; order++) {
+          Scenario sc;
+          build(sc, RP, pt, order, order ? 65537 : 1048576, 5000, order ? 1048576 : 65537, order, (unsigned)order + 1);
+          sc.plan = order ? pick_plan(9960 + out.size()) : Plan();
+          finish(sc);
+        }
+      const Pat cm[] = {{1, {1, 0, 0}, {0, 0, 0}}, {2, {1, 2, 0}, {0, 0, 0}}, {2, {2, 1, 0}, {0, 0, 0}}};
+      for (const Pat& pt : cm)
+        for (size_t P : {(size_t)65537, (size_t)1048576})
+          for (int dl = 0; dl < 2; dl++) {
+            t++;
+            Scenario sc;
+            build(sc, CM, pt, 0, P, 0, 0, t % 3, (unsigned)t);
+            sc.timeout_us = dl ? 60000000ULL : 0;
+            sc.ptr_overload = t % 2;
+            sc.plan = t % 2 ? Plan() : pick_plan(9970 + out.size());
+            finish(sc);
+          }
+    }
   }
   return out;
 }
@@ -1603,6 +1948,8 @@ struct Sampler {
   int rconsec = 0;            // consecutive samples: child reaped, call not returned, no byte moved
   uint64_t rbytes = 0, rprev_calls = 0, rcalls0 = 0;
   int zconsec = 0;            // consecutive samples: child exited (zombie), parent blocked for ever in one call
+  int tconsec = 0;            // consecutive samples: deadline (or grace) long past, parent in one call that has no timeout, child alive
+  uint64_t tcalls = 0, tbytes = 0;
   uint64_t zcalls = 0;
   uint64_t last_bytes = ~0ULL;
   uint64_t window_calls0 = 0;
@@ -1667,6 +2014,53 @@ struct Sampler {
                      child, cs.state, proc_syscall(child).line.c_str(), (int)g_shm->nsigs, (uint64_t)g_shm->calls[K_POLL],
                      (uint64_t)g_shm->poll_timeout_ms_sum, proc_syscall(sp).line.c_str());
         return w;
+      }
+    }
+    // (T3) a timeout is pending, its deadline (by an upper bound: first pipe() of the call + timeout) passed more than 5 s
+    // ago without any signal having been sent - resp. the grace period began more than 10 s ago without SIGKILL - and the
+    // parent sits in ONE system call that cannot return on its own: poll() with a negative (or > 1 h) timeout, wait4
+    // without WNOHANG, a blocking read/write.  The child is alive and no byte moves, so nothing will ever wake the parent:
+    // the timeout cannot end the child.  100 consecutive samples, same call throughout.
+    if (sc.api == RP && g_shm->timeout_us && child > 0 && !g_shm->reaped && g_shm->t_pipe_ns) {
+      const uint64_t now = mono_ns();
+      const bool nosig = g_shm->nsigs == 0;
+      const bool late = nosig ? now > g_shm->t_pipe_ns + (g_shm->timeout_us + 5000000ULL) * 1000ULL
+                              : (!g_shm->kill_sent && g_shm->t_term_hi_ns && now > g_shm->t_term_hi_ns + 10000000000ULL);
+      bool blocked = false;
+      Sys py;
+      ProcStat ps, cs;
+      if (late) {
+        ps = proc_stat(sp);
+        cs = proc_stat(child);
+        if (ps.ok && ps.state == 'S' && cs.ok && cs.state != 'Z' && cs.ppid == sp) {
+          py = proc_syscall(sp);
+          if (py.ok) {
+            if (py.nr == 7) blocked = (int)py.a2 < 0 || (int)py.a2 > 3600000;
+            else if (py.nr == 271) blocked = py.a2 == 0;  // ppoll(..., NULL timeout, ...)
+            else if (py.nr == 61) blocked = !((int)py.a2 & WNOHANG);
+            else if (py.nr == 0 || py.nr == 1) blocked = true;
+          }
+        }
+      }
+      if (blocked && (tconsec == 0 || (calls == tcalls && bytes == tbytes))) {
+        if (tconsec == 0) {
+          tcalls = calls;
+          tbytes = bytes;
+        }
+        if (++tconsec >= 100) {
+          w.found = true;
+          w.key = fmt("run_process:timeout:parent-blocked-without-timeout:%s:%s", sysname(py.nr),
+                      nosig ? "no-signal-after-deadline" : "no-sigkill-after-grace");
+          w.what = fmt("timeout_usecs=%" PRIu64 ": for 100 consecutive samples, all taken more than %s, parent %d stayed in one system call that "
+                       "cannot return on its own: '%s' wchan=%s (poll timeouts requested so far: min %d ms, max %d ms, last %d ms; %d poll calls with a "
+                       "negative or > 1 h timeout while the timeout was pending); child %d is alive (state %c, syscall '%s'), no byte moved; signals sent: %d",
+                       sc.timeout_us, nosig ? "5 s after the deadline with no signal sent" : "10 s after the first signal with no SIGKILL sent", sp,
+                       py.line.c_str(), slurp(fmt("/proc/%d/wchan", sp).c_str(), 64).c_str(), (int)g_shm->poll_min_timeout, (int)g_shm->poll_max_timeout,
+                       (int)g_shm->last_poll_timeout, (int)g_shm->poll_no_timeout_pending, child, cs.state, proc_syscall(child).line.c_str(), (int)g_shm->nsigs);
+          return w;
+        }
+      } else {
+        tconsec = 0;
       }
     }
     // (R) the child has been reaped (waitpid returned it) but the call does not return: the parent keeps making calls,
@@ -1882,6 +2276,23 @@ static Outcome run_scenario(vf::Ctx& c, const Scenario& sc, bool verbose) {
   // the scripted child dies with its parent (PR_SET_PDEATHSIG); nothing else to clean up.
 
   if (oc.hung) return oc;
+  // straight from the shared memory, so that they survive a scenario process killed by a witness
+  for (int i = 0; i < sc.plan.n; i++) {
+    const Delay& d = sc.plan.items[i];
+    if (d.mode != MODE_UNTIL_DEADLINE) continue;
+    string what = fmt("%s:%s:%s", KIND_NAMES[d.kind], d.phase ? "grace-end" : "deadline", d.after_rd ? "after-output-read" : "time-window");
+    if (g_shm->dl_fired[i]) {
+      c.cls("deadline-delay:placed:" + what);
+      c.count("deadline-delay:placed");
+      c.count("deadline-delay:resumed-after-deadline-us-sum", (uint64_t)g_shm->dl_resumed_after_us[i]);
+    } else {
+      c.count("deadline-delay:not-placed:" + what);
+    }
+  }
+  if (g_shm->poll_no_timeout_pending) c.count("shim:poll-without-timeout-while-run_process-timeout-pending", (uint64_t)g_shm->poll_no_timeout_pending);
+  if (sc.api == RP && g_shm->timeout_us && g_shm->poll_any)
+    c.cls(fmt("run_process:poll-timeouts-requested:min=%s:max=%s", g_shm->poll_min_timeout < 0 ? "negative" : g_shm->poll_min_timeout == 0 ? "0" : g_shm->poll_min_timeout < 1000 ? "<1s" : "1s+",
+              g_shm->poll_max_timeout < 0 ? "negative" : g_shm->poll_max_timeout <= 1000 ? "<=1s" : ">1s"));
   // records written by the SP
   string recs((const char*)g_shm->rec, g_shm->rec_len);
   size_t pos = 0;
@@ -1956,12 +2367,21 @@ int main(int argc, char** argv) {
   bool verbose = !c.arg("verbose").empty();
   long only = c.arg("case").empty() ? -1 : atol(c.arg("case").c_str());
   string only_api = c.arg("only");
+  // debugging aids: list=1 prints every scenario of the tier; from=<index> / beh=<substring> restrict the run
+  if (!c.arg("list").empty()) {
+    for (const Scenario& sc : all) printf("%s\n", sc.describe(c).c_str());
+    return 0;
+  }
+  long from = c.arg("from").empty() ? 0 : atol(c.arg("from").c_str());
+  string beh_filter = c.arg("beh");
   vector<string> hung;
   for (const Scenario& sc : all) {
     if (only >= 0) {
       if ((long)sc.index != only) continue;
     } else if (!c.mine(sc.index))
       continue;
+    if ((long)sc.index < from) continue;
+    if (!beh_filter.empty() && sc.beh.find(beh_filter) == string::npos) continue;
     if (!only_api.empty() && only_api != API_NAMES[sc.api]) continue;
     string kase = sc.describe(c);
     c.crumb_s(kase);
@@ -1978,6 +2398,7 @@ int main(int argc, char** argv) {
     c.cls(fmt("%s:%s:V=%s", API_NAMES[sc.api], sc.beh.c_str(), bucket(sc.vol)));
     if (sc.api == CM) c.cls(fmt("communicate:%s:%s", sc.timeout_us ? "deadline" : "no-deadline", sc.beh.c_str()));
     c.cls(sc.plan.cls());
+    for (auto& t : sc.tags) c.cls(t);
     if (sc.api == RP) c.cls(fmt("run_process:check=%d:stdin=%s:timeout=%s", (int)sc.check, sc.stdin_null ? "nullptr" : "data",
                                 sc.timeout_us == 0 ? "none" : sc.timeout_us > 100000000ULL ? "generous" : "short"));
     if (c.samples.size() < 4 && (sc.index % 37 == c.shard % 37)) c.sample(kase);
